@@ -194,6 +194,8 @@ def read_from_haplotype(refseq, variants, hap_alleles, a, b, edge_ins=False):
             add(1, len(v.alt) - 1)
             pos = v.pos + 1
         else:  # deletion of [v.pos+1, v.end)
+            if v.pos >= a and v.pos == b - 1:
+                break  # the read ends with the anchor base: the deleted stretch lies behind its end
             if v.pos < a or v.end >= b:
                 return None
             seq.append(refseq[pos : v.pos + 1])
